@@ -95,10 +95,12 @@ pub fn run(ctx: &Ctx) -> Outcome {
         let bs = cfg.bs;
         let key = &keys(seed, cfg.key_len)[0];
         let lbfs = 3 * bs + 2;
-        let pre = dirty(lbfs + 2 * bs + 2);
+        // long input: a single piece can exceed twice the parallel width and fixed thresholds of 8 / 16 blocks
+        let llong = long_blocks(par_of(cfg)) * bs + bs / 2 + 1;
+        let pre = dirty(llong + 2 * bs + 2);
         for (fam, dir, fe) in byte_frontends(cfg).into_iter().enumerate().filter(|(i, _)| Some(*i) == *which).map(|(_, f)| f) {
             for (ivn, iv) in iv_variants(seed, bs).into_iter().skip(tier.pick(2, 1)) {
-                for (dn, data) in data_variants(seed, 0xC08, lbfs + 2 * bs + 2).into_iter().skip(tier.pick(2, 1)) {
+                for (dn, data) in data_variants(seed, 0xC08, llong + 2 * bs + 2).into_iter().skip(tier.pick(2, 1)) {
                     let want = family_ref(cfg, &fam, dir, key, &iv, &data).0;
                     // (1) all compositions (with empty pieces) of short strings that straddle block boundaries
                     let lcomp = if bs <= 5 { tier.pick(8, 11) } else if bs <= 8 { tier.pick(bs + 2, bs + 4) } else if bs <= 16 { tier.pick(0, bs + 2) } else { 0 };
@@ -147,6 +149,29 @@ pub fn run(ctx: &Ctx) -> Outcome {
                         });
                     }
                     rep.count("deviation_schedules", cut_sets.len() as u64);
+                    // (2b) the same on a LONG input with cuts restricted to block-boundary neighbourhoods: a short
+                    // piece, a long piece that completes a block and carries many whole blocks, and the rest
+                    {
+                        let l = llong;
+                        let pts = boundary_points(bs, l);
+                        let mut n_sched = 0u64;
+                        for (i, &a) in pts.iter().enumerate() {
+                            for &b in std::iter::once(&l).chain(pts.iter().skip(i + 1)) {
+                                // keep the schedule count bounded for large blocks: first cut within the first two blocks
+                                if a > 2 * bs + 1 && bs > 8 {
+                                    continue;
+                                }
+                                let pieces: Vec<P> = if b == l { vec![p(a, Kind::InPlace), p(l - a, Kind::InPlace)] } else { vec![p(a, Kind::InPlace), p(b - a, Kind::InPlace), p(l - b, Kind::InPlace)] };
+                                n_sched += 1;
+                                rep.case(|| {
+                                    let got = (fe.run)(key, &iv, &data[..l], &pieces, &pre)?;
+                                    ensure!(got.out == want[..l], format!("output/{}", fe.name), "{} L={} pieces [{}]: {} differs from the single-call / reference result {} (first diff at byte {:?})", fe.ty, l, ps(&pieces), short(&got.out), short(&want[..l]), first_diff(&got.out, &want[..l]));
+                                    Ok(())
+                                });
+                            }
+                        }
+                        rep.count("long_input_schedules", n_sched);
+                    }
                     // (3) merged BFS over piece lengths
                     let lens: Vec<usize> = if bs <= 4 { (0..=2 * bs + 1).collect() } else if bs <= 32 { vec![0, 1, 2, bs - 1, bs, bs + 1, 2 * bs - 1, 2 * bs, 2 * bs + 1] } else { vec![0, bs - 1, bs, bs + 1, 2 * bs - 1, 2 * bs, 2 * bs + 1] };
                     let m = ChunkMachine { fe: &fe, key, iv: &iv, data: &data[..lbfs], pre: &pre, want: &want, lens, bs };
